@@ -1068,7 +1068,7 @@ def renders8(v):
 class C13(Oracle):
     prop = 'C13'
     own_kinds = frozenset()
-    TWIN_KINDS = frozenset(ops.RECV_KINDS | ops.NO_RECV) - {'assign', 'setansi', 'bad', 'query', 'roundtrip'}
+    TWIN_KINDS = frozenset(ops.RECV_KINDS | ops.NO_RECV) - {'assign', 'setansi', 'bad', 'roundtrip'}
 
     def before(self, ctx):
         op, k = ctx.op, ctx.kind
@@ -1076,6 +1076,8 @@ class C13(Oracle):
             return
         if k == 'conv' and op['how'] == 'copy':
             return
+        if k == 'query' and op['q'] == 'eq':
+            return   # == is defined per class (table equality vs rendering equality)
         if k == 'pad' and op['how'] != 'zfill' and not op['ext']:
             return   # AnsiStr has no extend_formatting parameter: not the same operation
         res = ctx.world.res
